@@ -282,6 +282,10 @@ partial def parseFitPars : List String → List (FitPar Float × Float)
       | none => parseFitPars r
   | _ => []
 
+def abPairs : List (Cx Float) → List (Cx Float × Cx Float)
+  | a :: b :: r => (a, b) :: abPairs r
+  | _ => []
+
 def step (line : String) : String :=
   match (line.trimAscii.toString.splitOn " ").filter (· ≠ "") with
   -- C19 ---------------------------------------------------------------
@@ -544,6 +548,47 @@ def step (line : String) : String :=
       let ph : FitPhase := if phase == "idle" then .idle else if phase == "initialised" then .initialised
         else if phase == "minimised" then .minimised else if phase == "errors" then .errorsDone else .cleaned
       ",".intercalate (nmpAttrs ph (ever == "1"))
+  -- C02 / C03 ---------------------------------------------------------
+  | ["nstop", x] => toString (nstopOf (pF x))
+  | ["dndown", zr, zi, nmx, sr, si] => sFs (flatCx (dnDown (⟨pF zr, pF zi⟩ : Cx Float) (pN nmx) ⟨pF sr, pF si⟩))
+  | ["lentz", zr, zi, n, e1, e2] => let d := lentzDn1 ⟨pF zr, pF zi⟩ (pN n) (pF e1) (pF e2); sFs [d.re, d.im]
+  | ["pistaus", n, th] =>
+      let pt := pisTaus (pN n) (Float.cos (pF th))
+      sFs (pt.map (·.1) ++ pt.map (·.2))
+  | ["miecoeffs", mr, mi, x, ns, e1, e2] =>
+      let ab := mieCoeffs ⟨pF mr, pF mi⟩ (pF x) (pN ns) (pF e1) (pF e2)
+      sFs (flatCx (ab.map (·.1)) ++ flatCx (ab.map (·.2)))
+  | "asmfar" :: th :: abs =>
+      let s := mieS1S2 (abPairs (cxs (abs.map pF))) (pF th)
+      sFs [s.1.re, s.1.im, s.2.re, s.2.im]
+  | ["miefar", mr, mi, x, th] =>
+      let ab := mieCoeffs ⟨pF mr, pF mi⟩ (pF x) (nstopOf (pF x)) 0.01 1e-16
+      let s := mieS1S2 ab (pF th)
+      sFs [s.1.re, s.1.im, s.2.re, s.2.im]
+  | "xsecsums" :: abs =>
+      let ab := abPairs (cxs (abs.map pF))
+      let s := crossSectionSums ab
+      sFs [s.1, s.2.1, s.2.2, asymmetrySum ab]
+  | ["miexsec", k, mr, mi, x] =>
+      let ab := mieCoeffs ⟨pF mr, pF mi⟩ (pF x) (nstopOf (pF x)) 0.01 1e-16
+      let c := mieCrossSections (pF k) ab
+      sFs [c.1, c.2.1, c.2.2.1, c.2.2.2]
+  | "rawxsec" :: k :: abs =>
+      let c := mieCrossSections (pF k) (abPairs (cxs (abs.map pF)))
+      sFs [c.1, c.2.1, c.2.2.1, c.2.2.2]
+  | "yangstep" :: args =>
+      match cxs (args.map pF) with
+      | [ml, mlm1, ha, hb, d1z1, d3z1, d1z2, d3z2, q] =>
+        let r := yangStep ml mlm1 ha hb d1z1 d3z1 d1z2 d3z2 q
+        sFs [r.1.re, r.1.im, r.2.re, r.2.im]
+      | _ => "bad-op"
+  | "coeffab" :: args =>
+      match cxs (args.map pF) with
+      | [h, m, nx, ps, psp, xi, xip] =>
+        let a := coeffA h m nx ps psp xi xip; let b := coeffB h m nx ps psp xi xip
+        sFs [a.re, a.im, b.re, b.im]
+      | _ => "bad-op"
+  | "cumsum" :: ts => sFs (cumsumFrom 0.0 (ts.map pF))
   | ["genfailures"] => toString (translationFailures ++ projTranslationFailures ++ tablesTranslationFailures)
   | _ => "bad-op"
 
